@@ -398,6 +398,8 @@ _PARSE_CONTEXTS = [ParseContext()]
 
 # Keeps track of singletons created via the singleton configurable.
 _SINGLETONS = {}
+# Re-entrant, since a singleton's constructor may itself use singletons.
+_SINGLETONS_LOCK = threading.RLock()
 
 # Keeps track of file readers. These are functions that behave like Python's
 # `open` function (can be used a context manager) and will be used to load
@@ -2763,15 +2765,16 @@ def singleton(constructor):
 
 
 def singleton_value(key, constructor=None):
-  if key not in _SINGLETONS:
-    if not constructor:
-      err_str = "No singleton found for key '{}', and no constructor was given."
-      raise ValueError(err_str.format(key))
-    if not callable(constructor):
-      err_str = "The constructor for singleton '{}' is not callable."
-      raise ValueError(err_str.format(key))
-    _SINGLETONS[key] = constructor()
-  return _SINGLETONS[key]
+  with _SINGLETONS_LOCK:
+    if key not in _SINGLETONS:
+      if not constructor:
+        err_str = "No singleton found for key '{}', and no constructor was given."
+        raise ValueError(err_str.format(key))
+      if not callable(constructor):
+        err_str = "The constructor for singleton '{}' is not callable."
+        raise ValueError(err_str.format(key))
+      _SINGLETONS[key] = constructor()
+    return _SINGLETONS[key]
 
 
 def constant(name, value):
